@@ -14,6 +14,7 @@ func init() {
 	cmds["c19"] = c19.Run
 	cmds["c11"] = c11.Run
 	cmds["c07"] = c07.Run
+	// c16 has its own binaries (two batch-size variants): /verif/harness/c16/run.sh
 	cmds["c06"] = func(a []string) { c06.ShardArgsPrefix = []string{"c06"}; c06.Run(a) }
 	cmds["c20"] = func(a []string) { c20.ShardArgsPrefix = []string{"c20"}; c20.Run(a) }
 }
